@@ -17,8 +17,8 @@ fn sec(id: u8, body: Vec<u8>, out: &mut Vec<u8>) {
 }
 
 /// Scaffold: types t0 = (params)->(), t1 = ()->(), t2 = (i32)->(i32); funcs f0:t1, f1:t2,
-/// f2: the subject (type t0); tables: 0 funcref, 1 externref, 2 funcref 64-bit;
-/// memories: 0 32-bit, 1 64-bit; globals 0..6 mutable of every value type;
+/// f2: the subject (type t0); tables: 0 funcref, 1 externref, 2 funcref 64-bit, 3 funcref (5..9);
+/// memories: 0 32-bit, 1 64-bit, 2 32-bit (2..3); globals 0..6 mutable of every value type;
 /// elems: 0 passive funcref [f0], 1 passive externref [null]; data: 0 passive.
 pub fn module(params: &[u8], body: &[u8]) -> Vec<u8> {
     let mut m = b"\0asm\x01\0\0\0".to_vec();
@@ -29,8 +29,10 @@ pub fn module(params: &[u8], body: &[u8]) -> Vec<u8> {
     t.extend([0x60, 0, 0, 0x60, 1, 0x7f, 1, 0x7f]);
     sec(1, t, &mut m);
     sec(3, vec![3, 1, 2, 0], &mut m);
-    sec(4, vec![3, 0x70, 0, 4, 0x6f, 0, 4, 0x70, 4, 4], &mut m);
-    sec(5, vec![2, 0, 1, 4, 1], &mut m);
+    // tables 0 and 3 (and memories 0 and 2) have the same index type but different limits, so that
+    // an operator that names two *distinct* entities of one kind exists and a swap is visible
+    sec(4, vec![4, 0x70, 0, 4, 0x6f, 0, 4, 0x70, 4, 4, 0x70, 1, 5, 9], &mut m);
+    sec(5, vec![3, 0, 1, 4, 1, 1, 2, 3], &mut m);
     let mut g = vec![7u8];
     g.extend([0x7f, 1, 0x41, 0, 0x0b]);
     g.extend([0x7e, 1, 0x42, 0, 0x0b]);
@@ -112,11 +114,16 @@ pub fn instances(boundary: bool) -> Vec<(&'static str, Vec<u8>)> {
     for i in 0..=6u8 {
         t.push(("idx", vec![i]));
     }
-    // two indices over {0,1,2}
-    for a in 0..=2u8 {
-        for b in 0..=2u8 {
-            t.push(("idx2", vec![a, b]));
+    // two indices over {0,1,2,3}: pairs of *distinct* entities first (a swap must be visible)
+    for a in 0..=3u8 {
+        for b in 0..=3u8 {
+            if a != b {
+                t.push(("idx2", vec![a, b]));
+            }
         }
+    }
+    for a in 0..=3u8 {
+        t.push(("idx2", vec![a, a]));
     }
     // memargs
     let offs32: &[u64] = if boundary { &[0, 1, 1 << 31, (1 << 32) - 1] } else { &[0, (1 << 32) - 1] };
@@ -129,6 +136,7 @@ pub fn instances(boundary: bool) -> Vec<(&'static str, Vec<u8>)> {
         for &o in offs64 {
             t.push(("memarg64", memarg(a, 1, o)));
         }
+        t.push(("memarg-mem2", memarg(a, 2, 16)));
     }
     // memarg + lane
     let lanes: &[u8] = if boundary { &[0, 1, 3, 7, 15] } else { &[0, 1] };
